@@ -71,6 +71,16 @@ type faults struct {
 	unmount bool
 }
 
+// gate holds the filesystem Mount issued on behalf of one request inside the
+// recording filesystem (a slow, lazily pulling Mount) until the harness decides
+// its outcome (overlap stage).
+type gate struct {
+	mp      int
+	origin  opRef
+	arrived chan struct{} // closed when the held call is inside the filesystem's Mount
+	release chan bool     // true: the held Mount then fails
+}
+
 type ctxKey int
 
 const (
@@ -147,6 +157,11 @@ func (in *inst) Mount(ctx context.Context, mountpoint string, labels map[string]
 		ev.MountedAny = in.w.mountedAnywhere(i)
 	}
 	fail := f != nil && f.mount[i]
+	if g := in.w.gate.Load(); g != nil && g.mp == i && ev.HasOrigin && ev.Origin == g.origin {
+		close(g.arrived)
+		fail = <-g.release
+		ev.T = now() // the mount takes effect (or fails) now
+	}
 	if !fail {
 		// like the kernel, a second mount on the same directory stacks; the monitor flags it
 		in.slots[i].mounted.Add(1)
@@ -215,6 +230,7 @@ type world struct {
 
 	// faults for the running operation (sequential cases; concurrent cases use the context)
 	faults  atomic.Pointer[faults]
+	gate    atomic.Pointer[gate]
 	failCfg atomic.Int32 // 0 none, 1|2: that config function fails
 
 	evMu   sync.Mutex
